@@ -44,7 +44,7 @@ use clauses::Owners;
 #[derive(Clone, Debug)]
 pub struct Failure {
     pub clause: &'static str,
-    pub owners: Owners,
+    pub owners: Vec<&'static str>,
     pub step: usize,
     pub message: String,
 }
@@ -85,7 +85,7 @@ pub struct Exec<const N: usize> {
 pub fn fail<T>(clause: &'static str, owners: Owners, message: String) -> Result<T, Failure> {
     Err(Failure {
         clause,
-        owners,
+        owners: owners.to_vec(),
         step: 0,
         message,
     })
@@ -191,17 +191,19 @@ impl<const N: usize> Exec<N> {
                     f.owners = f2.owners;
                 }
                 None => {
+                    // the restart / copy / merge is part of the history the basic properties quantify
+                    // over (DESIGN §3), and it is what C08 / C10 / C11 promise: both own the divergence
                     f.message = format!("{} [the same calls on a graph that never went through load/clone/merge do not fail]", f.message);
-                    f.owners = match (cl, cc, mg) {
-                        (true, false, false) => &["C08"],
-                        (false, true, false) => &["C10"],
-                        (false, false, true) => &["C11"],
-                        (true, true, false) => &["C08", "C10"],
-                        (true, false, true) => &["C08", "C11"],
-                        (false, true, true) => &["C10", "C11"],
-                        _ => &["C08", "C10", "C11"],
-                    };
-                    f.clause = "crossing.diverges-in-continuation";
+                    if cl {
+                        f.owners.push("C08");
+                    }
+                    if cc {
+                        f.owners.push("C10");
+                    }
+                    if mg {
+                        f.owners.push("C11");
+                    }
+                    self.stats.bump("attribution.crossing_blamed");
                     return f;
                 }
             }
@@ -210,12 +212,7 @@ impl<const N: usize> Exec<N> {
         // the divergence is add()'s fault if it vanishes once the adds on present vertices are left out
         if readd && !f.owners.contains(&"C04") && self.flat_replay(&log, op, false).is_some() && self.flat_replay(&log, op, true).is_none() {
             self.stats.bump("attribution.add_on_present_blamed");
-            f.owners = match f.owners {
-                x if x == clauses::ALIVE => &["C02", "C06", "C04"],
-                x if x == clauses::C03 => &["C03", "C04"],
-                x if x == clauses::PANIC_GC => &["C02", "C06", "C07", "C04"],
-                _ => &["C02", "C03", "C06", "C07", "C04"],
-            };
+            f.owners.push("C04");
         }
         f
     }
@@ -598,6 +595,11 @@ impl<const N: usize> Exec<N> {
         }
         // 5. the alive set and the edges against the model
         let inst = self.view.insts[i].as_mut().unwrap();
+        if inst.m.adoptive && !removed.is_empty() {
+            // a slice's groups are left open by C13: C01's clauses have passed, the model adopts
+            inst.m.adopt_removed(&removed);
+            self.stats.bump("probe.kept_slice_group_died");
+        }
         let mk = inst.m.keys();
         if mk != obs.keys {
             return fail(
@@ -696,7 +698,11 @@ impl<const N: usize> Exec<N> {
                 Err(mut e) => {
                     // the follower failed where the leader did not: that is the twin's property
                     e.message = format!("follower {f} of instance {i} ({kind:?}): {}", e.message);
-                    e.owners = owners;
+                    for o in owners {
+                        if !e.owners.contains(o) {
+                            e.owners.push(o);
+                        }
+                    }
                     e.clause = match kind {
                         LinkKind::Reload => "reload.diverges-in-continuation",
                         LinkKind::Clone => "clone.diverges-in-continuation",
